@@ -629,7 +629,7 @@ func runCluster(t *testing.T, tr *drv.Tracer, sid int, cfg map[string]any) {
 	genesis := time.Now() // the bubble's epoch
 	duty, delay := dutyOf(slot, dtype)
 	r := &run{t: t, tr: tr, sid: sid, n: n, duty: duty, t0: genesis.Add(time.Duration(slot)*slotDur + delay),
-		byz: ints(cfg["byz"]), names: map[string]int{}, valIdx: map[[32]byte]int{}, crashed: map[int]bool{}, crashes: map[int]crashRule{},
+		byz: append([]int{}, ints(cfg["byz"])...), names: map[string]int{}, valIdx: map[[32]byte]int{}, crashed: map[int]bool{}, crashes: map[int]crashRule{},
 		bidx: map[int]map[string]int{}, cancels: map[int]context.CancelFunc{}, decRound: map[int]int{},
 		obs: make(chan *pbv1.QBFTConsensusMsg, 4096)}
 	for _, c := range list(cfg["crashes"]) {
@@ -717,8 +717,10 @@ func runCluster(t *testing.T, tr *drv.Tracer, sid int, cfg map[string]any) {
 				})
 			continue
 		}
-		nctx, cancel := context.WithCancel(ctx)
-		r.cancels[i] = cancel
+		// a crash stops the member's instance (the context of its Participate / Propose calls) and cuts its links; the
+		// component's own goroutines (Start loop, deadliner) live on so that a request that is being handled in the very
+		// instant of the crash is still handled as by a live member
+		nctx := ctx
 		c, err := cqbft.NewConsensus(nctx, bc, &faultHost{Host: r.hosts[i], r: r, me: i}, new(p2p.Sender), r.peers, r.keys[i],
 			core.NewDeadliner(nctx, fmt.Sprintf("verif%d", i), deadlineFunc), gater,
 			func(inst *pbv1.SniffedConsensusInstance) {
@@ -822,16 +824,20 @@ func runCluster(t *testing.T, tr *drv.Tracer, sid int, cfg map[string]any) {
 	r.ended = true
 	r.mu.Unlock()
 	cancelAll()
+	// time stops when this function returns: let whatever is still in flight (held-back requests, retry sleeps, receive
+	// deadlines) run out first
+	time.Sleep(10 * time.Second)
 	synctest.Wait()
 	wg.Wait()
 	_ = mn.Close()
+	time.Sleep(10 * time.Second)
 	synctest.Wait()
 	r.mu.Lock()
 	sn := append([]sniffed{}, r.sniffs...)
 	r.mu.Unlock()
 	sort.Slice(sn, func(a, b int) bool { return sn[a].node < sn[b].node })
 	for _, s := range sn {
-		var msgs []any
+		msgs := []any{}
 		for _, m := range s.inst.GetMsgs() {
 			msgs = append(msgs, map[string]any{"t": int(m.GetTimestamp().AsTime().Sub(r.t0) / time.Millisecond), "m": r.abstract(m.GetMsg())})
 		}
